@@ -1,6 +1,4 @@
-//go:build ignore
-
-package eng
+package mirroreng
 
 // Scheduler of the `mirror` engine: one scenario = fresh stores + a real witness.Witness with a mirror
 // key; add-entries requests run in goroutines that park at the two verif hooks; the scheduler releases
@@ -16,6 +14,7 @@ import (
 	"encoding/base64"
 	"encoding/binary"
 	"encoding/hex"
+	"filippo.io/sunlight/verifharness/internal/eng"
 	"fmt"
 	"io"
 	"log/slog"
@@ -51,9 +50,9 @@ type mirrorTicket struct {
 
 type mirrorWorld struct {
 	c      mirrorCase
-	r      *Rand
-	tr     *Trace
-	st     *Stats
+	r      *eng.Rand
+	tr     *eng.Trace
+	st     *eng.Stats
 	keys   *mirrorKeys
 	name   string // witness name
 	k1, k2 *mirrorKey
@@ -72,7 +71,7 @@ type mirrorWorld struct {
 	tickets []*mirrorTicket
 	parked  []*mirrorReq
 	maxPark int
-	fails   []OracleFailure
+	fails   []eng.OracleFailure
 	steps   []string
 	broken  bool // the harness lost control of a request goroutine
 }
@@ -93,7 +92,7 @@ func (w *mirrorWorld) fail(sig, format string, a ...any) {
 	if len(script) > 30 {
 		script = script[len(script)-30:]
 	}
-	w.fails = append(w.fails, OracleFailure{Property: "C15", Signature: sig, Detail: d + " | last steps: " + strings.Join(script, " ; "), Case: w.c})
+	w.fails = append(w.fails, eng.OracleFailure{Property: "C15", Signature: sig, Detail: d + " | last steps: " + strings.Join(script, " ; "), Case: w.c})
 }
 
 func (w *mirrorWorld) step(format string, a ...any) {
@@ -117,13 +116,13 @@ func mirrorStrHash(s string) uint64 {
 	return h
 }
 
-func mirrorCaseRand(c mirrorCase) *Rand {
-	return NewRand(c.Seed*1000003 + uint64(c.Idx)*7919 + mirrorStrHash(c.Family))
+func mirrorCaseRand(c mirrorCase) *eng.Rand {
+	return eng.NewRand(c.Seed*1000003 + uint64(c.Idx)*7919 + mirrorStrHash(c.Family))
 }
 
 // mirrorNewWorld builds keys, ground truth and stores, writes the scenario preamble and starts epoch 0.
 // r must be the scenario PRNG (already used by the family to choose defs).
-func mirrorNewWorld(c mirrorCase, r *Rand, tr *Trace, st *Stats, defs []mirrorLogDef) *mirrorWorld {
+func mirrorNewWorld(c mirrorCase, r *eng.Rand, tr *eng.Trace, st *eng.Stats, defs []mirrorLogDef) *mirrorWorld {
 	w := &mirrorWorld{c: c, r: r, tr: tr, st: st, keys: &mirrorKeys{}, name: "w.example/witness"}
 	w.k1, w.ed = w.keys.newCosigEd25519(r, w.name)
 	w.k2, w.ml = w.keys.newCosigMLDSA(r, w.name)
@@ -343,10 +342,10 @@ func (w *mirrorWorld) release(r *mirrorReq) mirrorEvent {
 // ---------------------------------------------------------------- add-checkpoint (atomic)
 
 type mirrorCkOpt struct {
-	F, R, U   mirrorOut
-	Old       int64 // -1: the recorded size
-	Foreign   bool  // signed by a key that is not configured
-	Fork      bool  // checkpoint of the fork branch
+	F, R, U mirrorOut
+	Old     int64 // -1: the recorded size
+	Foreign bool  // signed by a key that is not configured
+	Fork    bool  // checkpoint of the fork branch
 }
 
 // addck posts one add-checkpoint for lg at size. It returns the status.
@@ -358,6 +357,11 @@ func (w *mirrorWorld) addck(lg *mirrorLog, size int64, o mirrorCkOpt) int {
 	old := o.Old
 	if old < 0 {
 		old, _ = w.pendingN(lg)
+	}
+	if o.Fork && old <= int64(lg.prefix) {
+		// the fork branch is a valid extension of anything inside the shared prefix: the witness would
+		// rightly record it and the ground truth (main branch) would no longer describe the log
+		return 0
 	}
 	tree := lg.trees[br]
 	if size > tree.n {
@@ -780,19 +784,19 @@ func mirrorParseInfo(body []byte) (pending, next int64, ticket []byte, ok bool) 
 }
 
 var mirrorErrClasses = map[string]string{
-	"invalid content type":                "ctype",
-	"failed to create gzip reader":        "gzip",
-	"failed to read origin":               "noOrigin",
-	"failed to read upload start":         "noStart",
-	"failed to read upload end":           "noEnd",
-	"upload end must be >= upload start":  "endLtStart",
-	"failed to read ticket":               "noTicket",
-	"unknown log":                         "unknownLog",
-	"no pending checkpoint for log":       "noPending",
-	"log is not mirrored":                 "notMirrored",
-	"missing or truncated request body":   "missingBody",
-	"invalid input":                       "badRequest",
-	"invalid proof":                       "invalidProof",
+	"invalid content type":               "ctype",
+	"failed to create gzip reader":       "gzip",
+	"failed to read origin":              "noOrigin",
+	"failed to read upload start":        "noStart",
+	"failed to read upload end":          "noEnd",
+	"upload end must be >= upload start": "endLtStart",
+	"failed to read ticket":              "noTicket",
+	"unknown log":                        "unknownLog",
+	"no pending checkpoint for log":      "noPending",
+	"log is not mirrored":                "notMirrored",
+	"missing or truncated request body":  "missingBody",
+	"invalid input":                      "badRequest",
+	"invalid proof":                      "invalidProof",
 }
 
 // finishAE writes the aresp line and runs the per-response part of the oracle (§5.5).
@@ -879,6 +883,20 @@ func mirrorTrunc(b []byte) string {
 }
 
 func (w *mirrorWorld) evalReq(r *mirrorReq, outcome string) {
-	h := sha256.Sum256([]byte(strings.Join(r.shape, "|") + "|" + outcome))
+	geom := fmt.Sprintf("|s%%256=%d,e%%256=%d,e-s=%d,enf=%v", mirrorAlignClass(r.start), mirrorAlignClass(r.end), min((r.end-r.start+255)/256, 9), w.c.Enforce)
+	h := sha256.Sum256([]byte(strings.Join(r.shape, "|") + "|" + outcome + geom))
 	w.st.Eval(hex.EncodeToString(h[:10]), r.pastMeta)
+}
+
+// mirrorAlignClass: position of n relative to the 256-entry tile boundaries (0 aligned, 1 just after, 2 middle, 3 just before).
+func mirrorAlignClass(n int64) int {
+	switch m := n % 256; {
+	case m == 0:
+		return 0
+	case m == 1:
+		return 1
+	case m == 255:
+		return 3
+	}
+	return 2
 }
